@@ -1,35 +1,42 @@
 (* C24 — cffi-gen-src output is byte-identical to FFI.emit_c_code.  Statements only.  Label: PARTIAL.
 
    The property is an I/O equivalence between two real programs (the command-line tool, in its two invocations
-   and two output modes, and FFI.emit_c_code).  NO theorem here states that equivalence about the code.
+   and two output modes, and FFI.emit_c_code).
 
-   What is proved:
-     C24_utf8_roundtrip, C24_utf8_total_on_scalar_values, C24_output_decodes_to_emitted
-         the one substantive result: the UTF-8 codec through which text enters and leaves on both sides is lossless
-         on every string of Unicode scalar values (and only those are encodable).
-     C24_tool_codecs_are_utf8 (regenerated fact: the `encoding=` of the tool's four open() sites),
-     C24_utf8sig_input_refuted (what another codec would lose)
-     C24_tool_writers_write_all (regenerated fact: each output branch of write_c_source is one write of the whole text;
-         the *_is_direct statements are for OUTPUT a path and for OUTPUT '-' alike: parameter to_stdout)
-     C24_read_sources_is_direct(_no_cr), C24_exec_python_is_direct
-         equalities between two HAND-WRITTEN compositions (C24/Model.v, same author) around abstract make_ffi /
-         find_ffi / emit.  They record the argument — bytes -> text (UTF-8 + universal newlines) -> cffi ->
-         text -> bytes is the same function on both sides when the encodings are UTF-8 — and nothing more: that the
-         real programs are these compositions is NOT proved.  Their value lies entirely in the correspondence.
-   Decided by the correspondence of tools/props/c24.py only (bytes and exit statuses compared on generated inputs):
-     "'cffi-gen-src read-sources' writes exactly the bytes that FFI.emit_c_code() produces",
-     "'cffi-gen-src exec-python' ... the FFI the script binds, directly or through a callable, under --ffi-var",
-     "'python -m cffi.gen_src' behaves identically",
-     "an output of '-' sends the same bytes to stdout"   (this last clause FAILS on the real tool: stdout starts
-                                                          with a stray 'generating <_io.StringIO ...>' line —
-                                                          known finding stdout_generating_line, with a fix diff).
+   Theorems about the tool's code as REGENERATED on every run (C24/Gen.v, statement-by-statement translations of
+   make_ffi_from_sources, generate_c_source, exec_python, read_sources and run of _cffi_gen_src.py, into the
+   vocabulary of C24/Model.v; FFI.emit_c_code = C23's model of the whole _make_c_or_py_source with the holes
+   `emit_holes` regenerated from recompiler.py; cffi's text-to-text work = an abstract record `prims`):
+     C24_direct_fresh_target      generate_c_source + write_c_source leave in OUTPUT (a path or '-') exactly the bytes
+                                  that emit_c_code(path) leaves in a fresh target
+     C24_read_sources_is_direct   read-sources = FFI().cdef(text); set_source(name, prelude); emit_c_code(fresh path),
+                                  text = what Python reads from the input files (UTF-8, universal newlines), errors
+                                  included; swapping cdef/csrc, another keyword mapping, another read order of the
+                                  codec facts break the proof
+     C24_exec_python_is_direct    the same for the FFI that find_ffi_in_python_script returns (abstract p_find)
+     C24_read_sources_undecodable UnicodeDecodeError, nothing written
+     C24_run_dispatch, C24_run_status   which function each subcommand reaches with which parsed arguments; the
+                                  usage errors (same file, no subcommand) exit with status 2
+     C24_direct_crlf_target_refuted     the equality needs the FRESH target: into a target that already holds the
+                                  generated text with CRLF line ends emit_c_code(path) leaves the CRLF bytes (C23's
+                                  up-to-date test reads in text mode) while the tool rewrites it with LF.  Replayed
+                                  on the real programs by the harness (stream crlf-target); not a finding: the
+                                  property compares what is produced for the same declarations, and the tool's bytes
+                                  are the generated text in every case (C24_direct_fresh_target holds for any state
+                                  of OUTPUT: open(output, 'w') truncates).
+     C24_utf8_roundtrip, C24_utf8_total_on_scalar_values, C24_tool_codecs_are_utf8, C24_tool_writers_write_all,
+     C24_utf8sig_input_refuted    the codec and the regenerated codec / writer facts
+     C24_composition_*            the earlier equalities between two HAND-WRITTEN compositions (kept; superseded)
+   NOT in Coq (correspondence of tools/props/c24.py only): the argparse declarations (argument order, dest names),
+   find_ffi_in_python_script's ladder (abstract `p_find`), that `python -m cffi.gen_src` and the console script
+   both call run, api.FFI.emit_c_code -> recompile -> make_c_source plumbing, the locale being UTF-8.  The '-'
+   clause failed on the real tool until /repo e794af8 (finding stdout_generating_line, fixed).
 
    Reading recorded: "cdef text" / "prelude" is the text Python obtains from the input file (UTF-8
-   decoding with universal newlines): a '\r' in an input file reaches cffi as '\n'
-   (C24_read_sources_is_direct states the general case with universal_nl). *)
+   decoding with universal newlines): a '\r' in an input file reaches cffi as '\n'. *)
 From Coq Require Import List NArith ZArith Bool.
 Import ListNotations.
-From Cffi Require Import C35.PyStr C24.Utf8 C23.Model C24.Model C24.Gen C24.Proofs.
+From Cffi Require Import C35.PyStr C35.Model C24.Utf8 C23.Model C24.Model C24.Gen C24.Proofs C24.Proofs2.
 Open Scope N_scope.
 
 Theorem C24_utf8_roundtrip : forall s b, utf8_encode s = Some b -> utf8_decode b = Some s.
@@ -41,30 +48,99 @@ Theorem C24_utf8_total_on_scalar_values : forall s,
 Proof. exact utf8_encode_total. Qed.
 Print Assumptions C24_utf8_total_on_scalar_values.
 
-Theorem C24_read_sources_is_direct : forall ffi make_ffi emit to_stdout name cdef csrc bc bs,
+Theorem C24_composition_read_sources_is_direct : forall ffi make_ffi emit to_stdout name cdef csrc bc bs,
   utf8_encode cdef = Some bc -> utf8_encode csrc = Some bs ->
   gen_src_read_sources ffi make_ffi emit the_codecs the_writers to_stdout name bc bs =
   direct ffi make_ffi emit name (universal_nl cdef) (universal_nl csrc).
 Proof. exact read_sources_is_direct. Qed.
-Print Assumptions C24_read_sources_is_direct.
+Print Assumptions C24_composition_read_sources_is_direct.
 
-Theorem C24_read_sources_is_direct_no_cr : forall ffi make_ffi emit to_stdout name cdef csrc bc bs,
+Theorem C24_composition_read_sources_is_direct_no_cr : forall ffi make_ffi emit to_stdout name cdef csrc bc bs,
   no_cr cdef -> no_cr csrc -> utf8_encode cdef = Some bc -> utf8_encode csrc = Some bs ->
   gen_src_read_sources ffi make_ffi emit the_codecs the_writers to_stdout name bc bs = direct ffi make_ffi emit name cdef csrc.
 Proof. exact read_sources_is_direct_no_cr. Qed.
-Print Assumptions C24_read_sources_is_direct_no_cr.
+Print Assumptions C24_composition_read_sources_is_direct_no_cr.
 
-Theorem C24_exec_python_is_direct : forall ffi find_ffi emit to_stdout script var b, utf8_encode script = Some b ->
+Theorem C24_composition_exec_python_is_direct : forall ffi find_ffi emit to_stdout script var b, utf8_encode script = Some b ->
   gen_src_exec_python ffi find_ffi emit the_codecs the_writers to_stdout b var =
   direct_of_script ffi find_ffi emit (universal_nl script) var.
 Proof. exact exec_python_is_direct. Qed.
-Print Assumptions C24_exec_python_is_direct.
+Print Assumptions C24_composition_exec_python_is_direct.
 
 Theorem C24_output_decodes_to_emitted : forall ffi make_ffi emit name cdef csrc out,
   direct ffi make_ffi emit name cdef csrc = Some out ->
   utf8_decode out = Some (emit (make_ffi name cdef csrc)).
 Proof. exact output_decodes_to_emitted. Qed.
 Print Assumptions C24_output_decodes_to_emitted.
+
+(* ---- the tool's regenerated code ---- *)
+Theorem C24_direct_fresh_target : forall ffi (P : prims ffi) f output,
+  bind (generate_c_source P emit_holes f) (m_write_c_source the_writers the_codecs output) =
+  bind (direct_bytes P emit_holes f None) (as_effect (str_eqb output dash)).
+Proof. exact direct_fresh_target. Qed.
+Print Assumptions C24_direct_fresh_target.
+
+Theorem C24_read_sources_is_direct : forall ffi (P : prims ffi) output name cdef csrc bc bs n1 n2,
+  utf8_encode cdef = Some bc -> utf8_encode csrc = Some bs ->
+  read_sources P emit_holes output name
+    {| if_name := n1; if_bytes := bc; if_codec := c_cdef the_codecs |}
+    {| if_name := n2; if_bytes := bs; if_codec := c_csrc the_codecs |} =
+  bind (direct_ffi P name (universal_nl cdef) (universal_nl csrc)) (fun f =>
+  bind (direct_bytes P emit_holes f None) (as_effect (str_eqb output dash))).
+Proof. exact read_sources_is_direct2. Qed.
+Print Assumptions C24_read_sources_is_direct.
+
+Theorem C24_read_sources_undecodable : forall ffi (P : prims ffi) output name ci si,
+  m_read si = Err EDecode \/ m_read ci = Err EDecode ->
+  read_sources P emit_holes output name ci si = Err EDecode.
+Proof. exact read_sources_undecodable. Qed.
+Print Assumptions C24_read_sources_undecodable.
+
+Theorem C24_exec_python_is_direct : forall ffi (P : prims ffi) output script b n var,
+  utf8_encode script = Some b ->
+  exec_python P emit_holes output {| if_name := n; if_bytes := b; if_codec := c_pyfile the_codecs |} var =
+  bind (p_find P (universal_nl script) n var) (fun f =>
+  bind (direct_bytes P emit_holes f None) (as_effect (str_eqb output dash))).
+Proof. exact exec_python_is_direct2. Qed.
+Print Assumptions C24_exec_python_is_direct.
+
+Theorem C24_run_dispatch : forall ffi (P : prims ffi) args,
+  run P emit_holes args =
+  if str_eqb (a_mode args) mode_exec_python
+  then exec_python P emit_holes (a_output args) (a_pyfile args) (a_ffi_var args)
+  else if str_eqb (a_mode args) mode_read_sources
+       then if a_same_file args then Err EUsage
+            else read_sources P emit_holes (a_output args) (a_module_name args) (a_cdef args) (a_csrc args)
+       else Err EUsage.
+Proof. exact run_dispatch. Qed.
+Print Assumptions C24_run_dispatch.
+
+Theorem C24_run_status : forall ffi (P : prims ffi) args,
+  (exit_status (run P emit_holes args) = 0%Z <-> exists e, run P emit_holes args = Ok e) /\
+  (str_eqb (a_mode args) mode_exec_python = false -> str_eqb (a_mode args) mode_read_sources = false ->
+   exit_status (run P emit_holes args) = 2%Z) /\
+  (str_eqb (a_mode args) mode_exec_python = false -> str_eqb (a_mode args) mode_read_sources = true ->
+   a_same_file args = true -> exit_status (run P emit_holes args) = 2%Z).
+Proof. exact run_status. Qed.
+Print Assumptions C24_run_status.
+
+(* the equality needs the fresh target: "a\r\n" already in the target, generated text "a\n" *)
+Theorem C24_direct_crlf_target_refuted : exists (f old output : str),
+  universal_nl old = p_gen crlf_prims f GPreamble /\
+  bind (generate_c_source crlf_prims emit_holes f) (m_write_c_source the_writers the_codecs output) = Ok (Wrote false [97;10]) /\
+  bind (direct_bytes crlf_prims emit_holes f (Some old)) (as_effect (str_eqb output dash)) = Ok (Wrote false [97;13;10]).
+Proof. exact direct_crlf_target_refuted. Qed.
+Print Assumptions C24_direct_crlf_target_refuted.
+
+(* non-vacuity of the regenerated pipeline: module "m", cdef file "i\r\n", prelude "é", OUTPUT '-' *)
+Example C24_example_tool :
+  run crlf_prims emit_holes
+    {| a_mode := mode_read_sources; a_output := dash; a_pyfile := {| if_name := []; if_bytes := []; if_codec := Utf8 |};
+       a_ffi_var := []; a_module_name := [109];
+       a_cdef := {| if_name := [99]; if_bytes := [105;13;10]; if_codec := c_cdef the_codecs |};
+       a_csrc := {| if_name := [115]; if_bytes := [195;169]; if_codec := c_csrc the_codecs |}; a_same_file := false |}
+  = Ok (Wrote true [105;10;195;169]).
+Proof. vm_compute. reflexivity. Qed.
 
 (* the codecs the tool opens its files with (`the_codecs`, regenerated from the `encoding=` arguments of
    _cffi_gen_src.py) are plain UTF-8; the *_is_direct statements above are about exactly these codecs, and the
